@@ -43,6 +43,8 @@ type caseRec struct {
 
 var tPrepare, tClose, tCase, tSnap, tNew vk.Counter
 
+var extGroups = map[string]bool{"header-batch": true, "deep-ahead": true, "restart": true}
+
 type viol struct {
 	what string // stable first part of the key
 	rec  caseRec
@@ -150,6 +152,10 @@ func (c *stateCtx) runCase(it item, path string) (o outcome) {
 	if d.Seq == "poolhist" {
 		base.Why = c.ph[d.PH].V.Why
 		c.runPoolHist(d, &o, bad)
+		return
+	}
+	if d.Seq == "ext" {
+		c.runExt(d, &o, &base, bad)
 		return
 	}
 	ctl, err := c.control()
@@ -592,11 +598,15 @@ func (c *stateCtx) probeAccepted(n *chainx.Node, blk *block.Block, post snap) st
 
 var tplNames = []string{"empty", "vote1", "gas-transfer", "u-storage2", "policy-fee+tx", "block-account3", anchorName, "fault-between"}
 
+// extTplNames are used by the extra states only (kept out of the thorough tree).
+var extTplNames = []string{oracleSetupName}
+
 type stateSpec struct {
 	fam   string
 	pad   int
 	hist  []string
 	mode  string
+	ext   bool // scenario with the extended template list (extra states)
 	build *stateCtx
 }
 
@@ -626,7 +636,7 @@ func quickStates() []stateSpec {
 }
 
 func famByName(n string) chainx.Family {
-	for _, f := range chainx.Families() {
+	for _, f := range families() {
 		if f.Name == n {
 			return f
 		}
@@ -637,6 +647,7 @@ func famByName(n string) chainx.Family {
 type scKey struct {
 	fam string
 	pad int
+	ext bool
 }
 
 func idxOf(names []string, tpls []chainx.Tpl) []int {
@@ -671,6 +682,13 @@ func TestCheck(t *testing.T) {
 		return
 	}
 	tpls := tplByName(tplNames...)
+	tplsAll := tplByName(append(append([]string{}, tplNames...), extTplNames...)...)
+	tplsOf := func(k scKey) []chainx.Tpl {
+		if k.ext {
+			return tplsAll
+		}
+		return tpls
+	}
 	scs := map[scKey]*chainx.Scenario{}
 	var scMu sync.Mutex
 	getSc := func(k scKey) *chainx.Scenario {
@@ -681,16 +699,25 @@ func TestCheck(t *testing.T) {
 	// ---- stage 1: scenarios and states ----
 	var specs []stateSpec
 	var keys []scKey
+	extra := extraStates()
+	for i := range extra {
+		extra[i].ext = true
+	}
+	explicit := extra // states whose history prefixes are grown one by one
 	if !r.Thorough() {
-		specs = quickStates()
-		seen := map[scKey]bool{}
-		for _, s := range specs {
-			k := scKey{s.fam, s.pad}
-			if !seen[k] {
-				seen[k] = true
-				keys = append(keys, k)
-			}
+		explicit = append(quickStates(), extra...)
+	}
+	seen := map[scKey]bool{}
+	for _, s := range explicit {
+		k := scKey{s.fam, s.pad, s.ext}
+		if !seen[k] {
+			seen[k] = true
+			keys = append(keys, k)
 		}
+	}
+	nExplicitKeys := len(keys)
+	if !r.Thorough() {
+		specs = explicit
 	} else {
 		for _, f := range chainx.Families() {
 			pads := []int{0}
@@ -698,14 +725,14 @@ func TestCheck(t *testing.T) {
 				pads = []int{0, 1, 2}
 			}
 			for _, p := range pads {
-				keys = append(keys, scKey{f.Name, p})
+				keys = append(keys, scKey{f.Name, p, false})
 			}
 		}
 	}
 	errs := make([]error, len(keys))
 	built := make([]*chainx.Scenario, len(keys))
 	r.Parallel(len(keys), func(i int) {
-		built[i], errs[i] = chainx.NewScenario(famByName(keys[i].fam), keys[i].pad, tpls)
+		built[i], errs[i] = chainx.NewScenario(famByName(keys[i].fam), keys[i].pad, tplsOf(keys[i]))
 	})
 	for i, k := range keys {
 		if errs[i] != nil || built[i] == nil {
@@ -713,15 +740,15 @@ func TestCheck(t *testing.T) {
 		}
 		scs[k] = built[i]
 	}
-	if !r.Thorough() {
+	{
 		// grow exactly the prefixes the hand-picked states need
-		r.Parallel(len(keys), func(i int) {
+		r.Parallel(nExplicitKeys, func(i int) {
 			sc := built[i]
-			for _, s := range specs {
-				if (scKey{s.fam, s.pad}) != keys[i] {
+			for _, s := range explicit {
+				if (scKey{s.fam, s.pad, s.ext}) != keys[i] {
 					continue
 				}
-				h := idxOf(s.hist, tpls)
+				h := idxOf(s.hist, tplsOf(keys[i]))
 				for d := 1; d <= len(h); d++ {
 					if sc.Get(h[:d]) == nil {
 						if err := sc.Grow(h[:d]); err != nil {
@@ -731,8 +758,9 @@ func TestCheck(t *testing.T) {
 				}
 			}
 		})
-	} else {
-		for _, k := range keys {
+	}
+	if r.Thorough() {
+		for _, k := range keys[nExplicitKeys:] {
 			sc := getSc(k)
 			sc.BuildTree(2, func(n int, f func(int)) { r.Parallel(n, f) })
 			var hs [][]int
@@ -756,11 +784,13 @@ func TestCheck(t *testing.T) {
 				specs = append(specs, stateSpec{fam: k.fam, pad: k.pad, hist: sc.Names(h), mode: modes[(i+len(h))%len(modes)].Name})
 			}
 		}
+		specs = append(specs, extra...)
 	}
 	r.Parallel(len(specs), func(i int) {
 		s := &specs[i]
 		md, _ := modeByName(s.mode)
-		c, err := buildState(getSc(scKey{s.fam, s.pad}), idxOf(s.hist, tpls), md)
+		k := scKey{s.fam, s.pad, s.ext}
+		c, err := buildState(getSc(k), idxOf(s.hist, tplsOf(k)), md)
 		if err != nil {
 			fmt.Printf("note: state %s pad%d %v %s cannot be prepared: %v\n", s.fam, s.pad, s.hist, s.mode, err)
 			r.Outcome("state-not-prepared")
@@ -822,6 +852,7 @@ func TestCheck(t *testing.T) {
 	rejectedTwins := map[string]int{}
 	hdrRecorded := map[string]int{}
 	mismatch := map[string]string{}
+	grpOutcomes := map[string]map[string]int{} // group -> outcome class -> cases (families of the extension round)
 	var execs, cases, decodeFails vk.Counter
 	r.Parallel(len(jobs), func(i int) {
 		mu.Lock()
@@ -846,6 +877,16 @@ func TestCheck(t *testing.T) {
 		}
 		classCnt[j.path+":"+o.class]++
 		groupCnt[j.path+":"+j.it.Group]++
+		if extGroups[j.it.Group] || strings.HasPrefix(j.c.fam.Name, "single-hf") || j.c.cv.OracleAddr != (util.Uint160{}) {
+			g := j.it.Group
+			if !extGroups[g] {
+				g = "state:" + j.c.fam.Name + "/" + strings.Join(j.c.names, ",")
+			}
+			if grpOutcomes[g] == nil {
+				grpOutcomes[g] = map[string]int{}
+			}
+			grpOutcomes[g][o.class+" "+o.result+": "+o.errText]++
+		}
 		if o.result == "decode-failed" {
 			decodeFails.Inc()
 		}
@@ -915,7 +956,7 @@ func TestCheck(t *testing.T) {
 	}
 	var neverRejectedNonTwin []string
 	for _, it := range its {
-		if deliveredBy[it.ID] > 0 && rejectedBy[it.ID] == 0 && acceptedTwins[it.ID] != deliveredBy[it.ID] {
+		if deliveredBy[it.ID] > 0 && rejectedBy[it.ID] == 0 && acceptedTwins[it.ID] != deliveredBy[it.ID] && !extGroups[it.Group] {
 			neverRejectedNonTwin = append(neverRejectedNonTwin, it.ID)
 		}
 	}
@@ -925,7 +966,20 @@ func TestCheck(t *testing.T) {
 			hdrItems++
 		}
 	}
+	famAdded := map[string]any{}
+	for g, m := range grpOutcomes {
+		n := 0
+		for _, v := range m {
+			n += v
+		}
+		e := map[string]any{"cases": n, "distinct_outcomes": len(m)}
+		if extGroups[g] {
+			e["outcomes"] = m
+		}
+		famAdded[g] = e
+	}
 	r.Finish(map[string]any{
+		"families_added_in_extension":   famAdded,
 		"states":                        len(states),
 		"transitions":                   int(execs.Get()),
 		"traces_validated_against_impl": int(cases.Get()),
@@ -950,6 +1004,10 @@ func TestCheck(t *testing.T) {
 		"NotValidBefore is only used at tip+2 (invalid) and tip (valid); the boundary tip+1 is not asserted",
 		"header keys = DataExecutable||hash, SYSCurrentHeader, IXHeaderHashList pages (dao.StoreHeader / PutCurrentHeader / StoreHeaderHashes)",
 		"the raw database is compared after a forced flush with a control replica of the same state and mode that received nothing; after the valid block with a control that only ever saw the valid block",
+		"header batches: a recorded header is held to: signed by the consensus address its recorded predecessor designates, index/previous hash/later timestamp relative to it, and (only when the predecessor block is the local tip) the local previous state root; nothing is demanded about HOW MANY valid headers of a batch get recorded",
+		"deep-ahead and restart families: 'headers-refused' (the node did not record the valid header batch) ends a case without a demand; it must not occur on a correct tree (see families_added_in_extension)",
+		"snapshots now include the native getters (policy values, committee, validators): a rejected or refused block must leave them unchanged",
+		"MaxBlockSize / MaxBlockSystemFee / MaxTransactionsPerBlock of the node configuration are not rules of block acceptance in the property text (nor in AddBlock): no case asserts them",
 	})
 }
 
